@@ -75,10 +75,12 @@ def run(ctx):
     cases += scases
     # regex functions under different cache sizes
     rcases = []; rmeta = []
-    pats = ['a.', '^x', 'b+', '(a)(b)', '[', 'z$', '.*', 'a|x']
+    # small patterns, invalid ones, and patterns whose compiled program is large (counted repetitions of Unicode classes):
+    # a cache that compiles differently from the uncached path (limits, flags) shows only on the large ones
+    pats = ['a.', '^x', 'b+', '(a)(b)', '[', 'z$', '.*', 'a|x', '\\w{50}', '\\w{1,48}b?', '\\pL{1,60}', '(?i)[a-z]{2,80}c', '(\\d+|\\w+){1,20}', '(a|b|x){1,30}', '\\p{Greek}*\\w{30}z?', 'a{1001}', '(?x) a b  c']
     for i in range(30 if ctx['tier'] == 'quick' else 400):
         hist = [rnd.choice(pats) for _ in range(rnd.choice([2, 5, 12, 40]))]
-        recs = [{'s': rnd.choice(['abc', 'xbz', 'ab', 'zzz', '']), 'p': p} for p in hist]
+        recs = [{'s': rnd.choice(['abc', 'xbz', 'ab', 'zzz', '', 'abcdefghijklmnopqrstuvwxyz' * 3, 'éa' * 30]), 'p': p} for p in hist]
         e = rnd.choice(['(match .s .p)', '(extract_regex_group .s .p 0)', '(extract_regex_group .s .p 1)'])
         grp = []
         for size in (0, 1, 2, 64):
